@@ -7,8 +7,10 @@ package main
 import (
 	"fmt"
 	"go/types"
+	"regexp"
 	"sort"
 	"strings"
+	"sync"
 
 	"golang.org/x/tools/go/ssa"
 )
@@ -38,6 +40,9 @@ type Obl struct {
 	File      string
 	Size      int
 	Agree     []string
+	noSlice   bool
+	sliced    bool
+	hops      int
 	Pre       *Obl // cover queries: the same site before the callee's postconditions were assumed
 }
 
@@ -62,6 +67,13 @@ type Ctx struct {
 	usedContracts map[*Contract]bool
 	lazyArr  map[string]func(idx string) string
 	lazyDone map[string]bool
+	sliceMu   sync.Mutex
+	noBind    int // >0 while translating the body of a quantifier (terms may mention bound variables)
+	inlinedBlocks int
+	aSyms     [][]string
+	aDef      []string
+	symIndex  map[string][]int
+	symIndexN int
 	globalsSeen map[string]globalCell // "pkg.name" -> cell
 	nonlinear bool
 	mulMemo  map[string]string
@@ -111,7 +123,7 @@ func isAtomic(t string) bool {
 // bind names a term by a fresh constant (definition by equality) unless it is
 // already atomic.
 func (c *Ctx) bind(prefix, sort_, term string) string {
-	if isAtomic(term) || len(term) < 24 {
+	if isAtomic(term) || len(term) < 24 || c.noBind > 0 {
 		return term
 	}
 	n := c.fresh(prefix, sort_)
@@ -164,9 +176,133 @@ func (c *Ctx) typeID(key string) int {
 	return c.eng.typeID(key)
 }
 
+var symRe = regexp.MustCompile(`\|[^|]*\|`)
+
+func symbolsOf(s string) []string {
+	return symRe.FindAllString(s, -1)
+}
+
+// assertSyms caches the symbols of each assertion; defSym[i] is the defined constant when
+// assertion i has the shape (= |x| term).
+func (c *Ctx) prepareSlicing() {
+	if c.aSyms != nil && len(c.aSyms) == len(c.asserts) {
+		return
+	}
+	start := len(c.aSyms)
+	for i := start; i < len(c.asserts); i++ {
+		a := c.asserts[i]
+		var syms []string
+		def := ""
+		if a != "" {
+			syms = symbolsOf(a)
+			if strings.HasPrefix(a, "(= |") {
+				end := strings.Index(a[3:], "| ")
+				if end > 0 {
+					def = a[3 : 3+end+1]
+				}
+			}
+		}
+		c.aSyms = append(c.aSyms, syms)
+		c.aDef = append(c.aDef, def)
+	}
+}
+
+// buildSymIndex: symbol -> assertions mentioning it.
+func (c *Ctx) buildSymIndex() {
+	if c.symIndex != nil && c.symIndexN >= len(c.asserts) {
+		return
+	}
+	c.symIndex = map[string][]int{}
+	for i, syms := range c.aSyms {
+		seen := map[string]bool{}
+		for _, s := range syms {
+			if !seen[s] {
+				seen[s] = true
+				c.symIndex[s] = append(c.symIndex[s], i)
+			}
+		}
+	}
+	c.symIndexN = len(c.asserts)
+}
+
+// slice returns the set of assertion indices (below n) relevant to the given seed text.
+// Dropping assertions only weakens the hypotheses, so an `unsat` answer on the slice is sound;
+// `sat` answers on a slice are re-checked on the full query.
+func isReachSym(s string) bool {
+	return strings.HasPrefix(s, "|e!") || strings.HasPrefix(s, "|r!") || strings.HasPrefix(s, "|dv")
+}
+
+// slice: hops <= 0 means the full relevance closure; otherwise assertions within `hops` steps of
+// the seeds in the symbol-sharing graph, where path-condition constants do not propagate relevance.
+func (c *Ctx) slice(n int, seeds []string, hops int) []bool {
+	c.sliceMu.Lock()
+	c.prepareSlicing()
+	c.buildSymIndex()
+	c.sliceMu.Unlock()
+	keep := make([]bool, n)
+	S := map[string]int{}
+	type item struct {
+		s string
+		d int
+	}
+	var work []item
+	for _, sd := range seeds {
+		for _, s := range symbolsOf(sd) {
+			if _, ok := S[s]; !ok {
+				S[s] = 0
+				work = append(work, item{s, 0})
+			}
+		}
+	}
+	for len(work) > 0 {
+		it := work[0]
+		work = work[1:]
+		if hops > 0 && it.d >= hops {
+			continue
+		}
+		if hops > 0 && it.d > 0 && isReachSym(it.s) {
+			// include the definition of a path condition but do not expand through it
+			for _, i := range c.symIndex[it.s] {
+				if i < n && c.aDef[i] == it.s {
+					keep[i] = true
+				}
+			}
+			continue
+		}
+		for _, i := range c.symIndex[it.s] {
+			if i >= n || keep[i] {
+				continue
+			}
+			// a definition of another constant is pulled in only when that constant is relevant
+			if d := c.aDef[i]; d != "" && d != it.s {
+				if _, rel := S[d]; !rel {
+					continue
+				}
+			}
+			keep[i] = true
+			for _, t := range c.aSyms[i] {
+				if _, ok := S[t]; !ok {
+					S[t] = it.d + 1
+					work = append(work, item{t, it.d + 1})
+				}
+			}
+		}
+	}
+	return keep
+}
+
 // script renders the SMT-LIB query of an obligation.
 func (o *Obl) script(produceModels bool) string {
+	return o.scriptOpt(produceModels, false)
+}
+
+func (o *Obl) scriptOpt(produceModels bool, sliced bool) string {
 	c := o.ctx
+	var keepA []bool
+	if sliced {
+		seeds := append([]string{o.Cond, o.Goal}, o.Extra...)
+		keepA = c.slice(o.NAsserts, seeds, o.hops)
+	}
 	var b strings.Builder
 	if produceModels {
 		b.WriteString("(set-option :produce-models true)\n")
@@ -208,6 +344,9 @@ func (o *Obl) script(produceModels bool) string {
 		}
 		if o.ExpectSat && strings.Contains(a, "(forall ") {
 			continue // cover/canary queries check the quantifier-free part of the assumptions
+		}
+		if keepA != nil && !keepA[i] {
+			continue
 		}
 		b.WriteString("(assert ")
 		b.WriteString(a)
@@ -285,13 +424,13 @@ func (c *Ctx) restoreGlobals(old, nh *Heap, ms *ModSet) *Heap {
 		// about) are never assigned outside their package initialiser: keep them across any call
 		immutable := c.eng.factGlobalKeys()[k]
 		if !immutable {
-			if top || (ms != nil && ms.m[k]) {
+			if top || (ms != nil && ms.has(k)) {
 				continue
 			}
 		}
 		l := locOfRef(cell.ref, cell.typ)
 		for _, acc := range l.accs {
-			if !top && ms != nil && !ms.m[acc.mem] {
+			if !top && ms != nil && !ms.has(acc.mem) {
 				continue // array not havocked
 			}
 			nh = c.storeAcc(nh, acc, c.loadAcc(old, acc))
@@ -300,7 +439,7 @@ func (c *Ctx) restoreGlobals(old, nh *Heap, ms *ModSet) *Heap {
 			// the *big.Int it points to is never mutated in place (same scan)
 			if pt, ok := cell.typ.Underlying().(*types.Pointer); ok {
 				if key, sp := specialNamed(pt.Elem()); sp && key == "math/big.Int" {
-					if top || ms == nil || ms.m[bigMem] {
+					if top || ms == nil || ms.has(bigMem) {
 						p := c.loadAcc(old, l.accs[0])
 						arrOld := c.heapGet(old, bigMem, "(Array Int Int)")
 						arrNew := c.heapGet(nh, bigMem, "(Array Int Int)")
